@@ -47,6 +47,7 @@ func Main(args []string) int {
 type World struct {
 	P *Program
 	C *Contracts
+	expanded bool
 }
 
 func loadWorld() (*World, error) {
@@ -62,7 +63,9 @@ func loadWorld() (*World, error) {
 	if os.Getenv("GVC_VERBOSE") != "" {
 		fmt.Fprintf(os.Stderr, "loaded %d functions, %d contracts in %v\n", len(p.Funcs), len(c.Funcs), time.Since(t0))
 	}
-	return &World{p, c}, nil
+	w := &World{P: p, C: c}
+	w.expandStructural()
+	return w, nil
 }
 
 func (w *World) findFuncs(pat string) []*ssa.Function {
